@@ -33,6 +33,12 @@ ALIASES = {
     "θ_dot": ["theta_dot"], "φ_dot": ["phi_dot"], "u": ["aol"], "E": ["H"],
     "vx": ["x_dot"], "vy": ["y_dot"], "vz": ["z_dot"], "α": ["alpha", "maol"],
 }
+# components that are angles defined modulo 2 pi
+ANGLE_IDX = {
+    "cartesian": (), "spherical": (1,), "cylindrical": (1,), "keplerian": (3, 4, 5), "keplerian_eccentric": (3, 4, 5),
+    "keplerian_mean": (3, 4, 5), "keplerian_circular": (4, 5), "keplerian_mean_circular": (4, 5),
+    "equinoctial": (5,), "tle": (1, 3, 4),
+}
 ALL_NAMES = sorted({n for p in FORM_PARAMS.values() for n in p} | {a for v in ALIASES.values() for a in v})
 
 RESERVED = ("date", "form", "frame", "cov", "maneuvers", "propagator", "infos")
@@ -137,13 +143,18 @@ def diff(a, b):
     return out
 
 
-def rel_err(got, want, floor=1.0):
-    """max over components of |got - want| / max(|want|, floor_k); NaN-safe (NaN only equals NaN)"""
+def rel_err(got, want, floor=1.0, angles=()):
+    """max over components of |got - want| / max(|want|, floor_k); NaN-safe (NaN only equals NaN);
+    components listed in ``angles`` are compared modulo 2 pi, absolutely"""
     got = np.asarray(got, float).ravel()
     want = np.asarray(want, float).ravel()
     fl = np.broadcast_to(np.asarray(floor, float), want.shape)
     worst = 0.0
-    for g, w, f in zip(got, want, fl):
+    for k, (g, w, f) in enumerate(zip(got, want, fl)):
+        if k in angles and np.isfinite(g) and np.isfinite(w):
+            d = (g - w) % (2 * np.pi)
+            worst = max(worst, min(d, 2 * np.pi - d))
+            continue
         if np.isnan(w) and np.isnan(g):
             continue
         if not (np.isfinite(g) and np.isfinite(w)):
